@@ -112,6 +112,7 @@ type VerifConfig struct {
 	Handler          telegram.UpdateHandler
 	Storage          StateStorage
 	Hasher           ChannelAccessHasher
+	UserHasher       UserAccessHasher // nil: in-memory default
 	OnTooLong        func()
 	OnChannelTooLong func(channelID int64)
 	IsBot            bool
@@ -186,6 +187,7 @@ func VerifNewState(cfg VerifConfig) (*VerifState, error) {
 		Handler:          cfg.Handler,
 		Storage:          cfg.Storage,
 		AccessHasher:     cfg.Hasher,
+		UserAccessHasher: cfg.UserHasher,
 		OnTooLong:        cfg.OnTooLong,
 		OnChannelTooLong: cfg.OnChannelTooLong,
 		Logger:           log.Nop,
@@ -242,6 +244,15 @@ func (v *VerifState) Channels() []int64 { return v.chans }
 func (v *VerifState) MainHandle(u tg.UpdatesClass) error {
 	return v.s.handleUpdates(trace.ContextWithSpanContext(v.mainCtx(), trace.SpanContext{}), u)
 }
+
+// MainAffected is the body of the affectedQueue arm of internalState.Run for one
+// Manager.HandleAffected call (pts increment of a messages.affected* RPC result).
+func (v *VerifState) MainAffected(channelID int64, pts, ptsCount int) error {
+	return v.s.handleAffected(trace.ContextWithSpanContext(v.mainCtx(), trace.SpanContext{}), channelID, pts, ptsCount)
+}
+
+// VerifAffectedID is the harness identity of a queued affected-pts marker (no update object).
+func VerifAffectedID(pts, ptsCount int) int { return -1000 - pts*8 - ptsCount }
 
 // MainInternalLen is the number of updates queued by channel workers for the main loop.
 func (v *VerifState) MainInternalLen() int { return len(v.s.internalQueue) }
@@ -359,7 +370,11 @@ func (v *VerifState) Dump(id func(any) int) VerifDump {
 		var q []int
 		for i, n := 0, len(s.updates); i < n; i++ {
 			u := <-s.updates
-			q = append(q, id(u.update))
+			if u.affected {
+				q = append(q, VerifAffectedID(u.pts, u.ptsCount))
+			} else {
+				q = append(q, id(u.update))
+			}
 			s.updates <- u
 		}
 		d.ChanQueue = append(d.ChanQueue, q)
